@@ -33,6 +33,8 @@ pub enum Kind {
     AuxRecycled(u16, u64, u8, bool),
     /// a key with more leaves than a u64 can count (7 x H10) at this counter: lifetime and sign
     TallKey(u64),
+    /// a well-formed key of 8 levels W1/H2
+    EightW1,
 }
 
 #[derive(Clone, Debug, Serialize, Deserialize)]
@@ -304,6 +306,10 @@ pub fn check(c: &Case) -> Verdict {
             };
             aux_exercise_shape(h, &shape, v, *keygen, &format!("a recycled aux buffer of {} bytes (first byte 0, leftovers behind it) for a root of height {}", len, shape[0].1))
         }
+        Kind::EightW1 => {
+            let levels: Vec<Level> = vec![(1, 2); 8];
+            exercise_blob(h, &hss::private_key_blob(&levels, 77, &seed), "a well-formed key of 8 levels W1/H2")
+        }
         Kind::TallKey(ctr) => {
             let levels: Vec<Level> = vec![(4, 10); 7];
             let blob = hss::private_key_blob(&levels, *ctr, &seed);
@@ -375,6 +381,10 @@ pub fn run(ctx: &Ctx) {
         for w in [0u32, 1, 2, 0x8000_0000, 0xffff_ffff, 0x7fff_ffff, 0x83ff_ffff, 0x8200_0000, 0x8000_0001, 0x8000_0020] {
             items.push(Case { hash: *h, kind: Kind::AuxLevelWord(w, true) });
             items.push(Case { hash: *h, kind: Kind::AuxLevelWord(w, false) });
+        }
+        if h.n() == 32 {
+            // a well-formed 8 x W1/H2 key (listed known finding siglen>65535): always exercised
+            items.push(Case { hash: *h, kind: Kind::EightW1 });
         }
         if h.n() == 16 {
             for c in [0u64, 1, 2, 3, 1023, 1024, 1 << 40, (1 << 60) - 1, 1 << 63, u64::MAX - 1] {
